@@ -16,7 +16,6 @@ import time
 
 REPO = os.environ.get("WV_REPO", "/repo")
 ROOT = os.environ.get("WV_SCRATCH", "/var/tmp/whverif")
-BUILD_DIR = os.path.join(ROOT, "build")
 PY = "/venv/bin/python"
 
 # extension -> (globs of files whose content decides a rebuild, artefact prefixes to delete)
@@ -50,38 +49,89 @@ def _hash_group(base, globs):
     return h.hexdigest()
 
 
+def _tree_hash():
+    """Content hash of everything that is synced (sources of the working tree)."""
+    out = subprocess.run(
+        ["rsync", "-an", "--out-format=%n", "--exclude=.git", "--exclude=/tests", "--exclude=/doc", "--exclude=/logo",
+         "--exclude=/misc", "--exclude=/build", "--exclude=*.so", "--exclude=__pycache__", "--exclude=*.egg-info",
+         "--exclude=/whatshap/*.cpp", "--exclude=/whatshap/polyphase/solver.cpp", "--exclude=.pytest_cache",
+         "--exclude=*.pyc", REPO + "/", "/nonexistent-dst/"],
+        stdout=subprocess.PIPE, text=True, check=True).stdout.split("\n")
+    h = hashlib.sha256()
+    for rel in sorted(x for x in out if x and not x.endswith("/")):
+        f = os.path.join(REPO, rel)
+        if os.path.isfile(f):
+            h.update(rel.encode())
+            with open(f, "rb") as fh:
+                h.update(fh.read())
+    return h.hexdigest()[:16]
+
+
+def _gc(keep):
+    """Remove scratch builds that have not been used for 3 hours (never the one in use), keep at most 5."""
+    now = time.time()
+    ds = []
+    for d in glob.glob(os.path.join(ROOT, "build-*")):
+        if d == keep:
+            continue
+        try:
+            age = now - os.path.getmtime(os.path.join(d, ".wvused"))
+        except OSError:
+            age = 1e9
+        ds.append((age, d))
+    ds.sort()
+    for i, (age, d) in enumerate(ds):
+        if age > 3 * 3600 or i >= 4:
+            subprocess.run(["rm", "-rf", d])
+
+
 def ensure_build(verbose=True):
-    """Bring BUILD_DIR up to date with REPO's working tree; return BUILD_DIR."""
+    """Build REPO's working tree in a scratch directory keyed by the content hash of its
+    sources (so concurrent checks of different trees never disturb each other); return it."""
     os.makedirs(ROOT, exist_ok=True)
     t0 = time.time()
     with open(os.path.join(ROOT, ".lock"), "w") as lock:
         fcntl.flock(lock, fcntl.LOCK_EX)
-        os.makedirs(BUILD_DIR, exist_ok=True)
-        # 1. sync sources (python files are always fresh; compiled artefacts are kept)
+        th = _tree_hash()
+        bdir = os.path.join(ROOT, "build-" + th)
+        used = os.path.join(bdir, ".wvused")
+        if os.path.exists(os.path.join(bdir, ".wvcomplete")):
+            with open(used, "w"):
+                pass
+            if verbose:
+                print(f"[build] {bdir} up to date ({time.time() - t0:.1f}s)", flush=True)
+            return bdir
+        # seed from the most recently used other build so that only stale extensions are rebuilt
+        if not os.path.isdir(bdir):
+            others = sorted(glob.glob(os.path.join(ROOT, "build-*/.wvcomplete")), key=os.path.getmtime)
+            if others:
+                subprocess.run(["cp", "-a", os.path.dirname(others[-1]), bdir], check=True)
+                os.remove(os.path.join(bdir, ".wvcomplete"))
+            else:
+                os.makedirs(bdir)
         cmd = [
             "rsync", "-a", "--delete",
             "--exclude=.git", "--exclude=/tests", "--exclude=/doc", "--exclude=/logo", "--exclude=/misc",
             "--exclude=/build", "--exclude=*.so", "--exclude=__pycache__", "--exclude=*.egg-info",
             "--exclude=/whatshap/*.cpp", "--exclude=/whatshap/polyphase/solver.cpp",
-            "--exclude=/.wvstamp.json", "--exclude=.pytest_cache",
-            REPO + "/", BUILD_DIR + "/",
+            "--exclude=/.wv*", "--exclude=.pytest_cache",
+            REPO + "/", bdir + "/",
         ]
         subprocess.run(cmd, check=True)
-        # 2. decide which extensions are stale
-        stamp_file = os.path.join(BUILD_DIR, ".wvstamp.json")
+        stamp_file = os.path.join(bdir, ".wvstamp.json")
         try:
             with open(stamp_file) as fh:
                 stamp = json.load(fh)
         except Exception:
             stamp = {}
-        new = {k: _hash_group(BUILD_DIR, g[0]) for k, g in GROUPS.items()}
+        new = {k: _hash_group(bdir, g[0]) for k, g in GROUPS.items()}
         stale = []
         for k, (_, arts) in GROUPS.items():
-            have_so = any(glob.glob(os.path.join(BUILD_DIR, a + ".cpython-*.so")) for a in arts)
+            have_so = any(glob.glob(os.path.join(bdir, a + ".cpython-*.so")) for a in arts)
             if stamp.get(k) != new[k] or not have_so:
                 stale.append(k)
                 for a in arts:
-                    for f in glob.glob(os.path.join(BUILD_DIR, a + ".cpython-*.so")) + [os.path.join(BUILD_DIR, a + ".cpp")]:
+                    for f in glob.glob(os.path.join(bdir, a + ".cpython-*.so")) + [os.path.join(bdir, a + ".cpp")]:
                         if os.path.exists(f):
                             os.remove(f)
         if stale:
@@ -92,18 +142,21 @@ def ensure_build(verbose=True):
             env.pop("PYTHONPATH", None)
             p = subprocess.run(
                 [PY, "setup.py", "-q", "build_ext", "--inplace", "-j", "16"],
-                cwd=BUILD_DIR, env=env, stdout=subprocess.PIPE, stderr=subprocess.STDOUT, text=True,
+                cwd=bdir, env=env, stdout=subprocess.PIPE, stderr=subprocess.STDOUT, text=True,
             )
             if p.returncode != 0:
                 sys.stdout.write(p.stdout[-6000:])
                 raise BuildError("extension build failed")
-            # temporary objects are not needed any more
-            subprocess.run(["rm", "-rf", os.path.join(BUILD_DIR, "build")])
+            subprocess.run(["rm", "-rf", os.path.join(bdir, "build")])
             with open(stamp_file, "w") as fh:
                 json.dump(new, fh)
+        for f in (os.path.join(bdir, ".wvcomplete"), used):
+            with open(f, "w"):
+                pass
+        _gc(bdir)
         if verbose:
-            print(f"[build] {BUILD_DIR} up to date ({time.time() - t0:.1f}s, rebuilt={stale})", flush=True)
-    return BUILD_DIR
+            print(f"[build] {bdir} built ({time.time() - t0:.1f}s, rebuilt={stale})", flush=True)
+    return bdir
 
 
 class BuildError(Exception):
